@@ -48,8 +48,8 @@ func c06(r *sim.R) *sim.Violation {
 	sort.Strings(files)
 	metaDamaged := false
 	var what []string
-	nDmg := 1 + t.Draw(3)
-	for i := 0; i < nDmg; i++ {
+	// damageOne damages one file of the victim day (kind and position drawn)
+	damageOne := func() {
 		f := files[t.Draw(len(files))]
 		if t.Draw(3) == 0 {
 			f = dir + "/.blockmeta"
@@ -57,7 +57,7 @@ func c06(r *sim.R) *sim.Violation {
 		isMeta := strings.HasSuffix(f, ".blockmeta")
 		b, ok := wd.fs.ReadRaw(tree, f)
 		if !ok {
-			continue
+			return
 		}
 		kind := ""
 		switch t.Draw(8) {
@@ -116,17 +116,32 @@ func c06(r *sim.R) *sim.Violation {
 		what = append(what, fmt.Sprintf("%s: %s", f[strings.LastIndex(f, "/")+1:], kind))
 		r.Fault("stored-byte-damage:" + strings.Fields(kind)[0])
 	}
+	nDmg := 1 + t.Draw(3)
+	// one run in three injects one of the faults while the first query is running (after a drawn
+	// number of its file-system operations: after the metadata was read, between column reads, ...)
+	midAt := -1
+	if t.Draw(3) == 0 {
+		midAt = t.Draw(150)
+		nDmg = t.Draw(2)
+	}
+	for i := 0; i < nDmg; i++ {
+		damageOne()
+	}
 	r.Nontriv = len(what) > 0
-	r.Event("victim %s/%d: %s", vIface, vDay, strings.Join(what, "; "))
-	sig := "column files damaged, all present"
-	for _, w := range what {
-		if strings.HasSuffix(w, ": deleted") {
-			sig = "column file deleted"
+	r.Event("victim %s/%d: %s (mid-query fault at operation %d)", vIface, vDay, strings.Join(what, "; "), midAt)
+	sig := ""
+	setSig := func() {
+		sig = "column files damaged, all present"
+		for _, w := range what {
+			if strings.HasSuffix(w, ": deleted") {
+				sig = "column file deleted"
+			}
+		}
+		if metaDamaged {
+			sig = "metadata damaged"
 		}
 	}
-	if metaDamaged {
-		sig = "metadata damaged"
-	}
+	setSig()
 	// queries
 	for qi := 0; qi < 3; qi++ {
 		q := &model.Query{Attrs: []string{"sip", "dip", "dport", "proto"}, Time: true, IfaceAttr: true, Ifaces: []string{"eth0", "eth1"}, First: 1, Last: 4102444800}
@@ -140,10 +155,36 @@ func c06(r *sim.R) *sim.Violation {
 			q.Ifaces = []string{vIface}
 		}
 		workers := []int{1, 2, 4}[t.Draw(3)]
+		fired := false
+		if qi == 0 && midAt >= 0 {
+			// a sequential reader, so that "the k-th operation of the query" is well defined
+			workers = 1
+			ops := 0
+			wd.fs.Yield = func(op *simfs.Op) {
+				if op.Proc.Name != "r" || fired {
+					return
+				}
+				if ops++; ops > midAt {
+					fired = true
+					n := len(what)
+					damageOne()
+					if len(what) > n {
+						r.Fault("damage-while-the-query-runs")
+						r.Event("  after operation %d of the query (%s %s): %s", midAt, op.Kind, canonOp(op.Path), what[len(what)-1])
+					}
+				}
+			}
+		}
 		restore := engine.VerifSetNumProcessingUnits(workers)
 		wd.fs.Restart("r")
 		res, err := runQuery(context.Background(), q, t.Draw(2) == 1)
 		restore()
+		wd.fs.Yield = nil
+		if fired {
+			r.Nontriv = len(what) > 0
+			setSig() // same classes as damage found at rest: what fails does not depend on when the file broke
+			what = append(what, fmt.Sprintf("(the last fault struck while the query was running, after %d of its file-system operations)", midAt))
+		}
 		if err != nil {
 			if v := r.Report(&sim.Violation{Clause: "query-fails", Signature: sig, Detail: fmt.Sprintf("%s\ndamage: %s\nerror: %v", describe(q), strings.Join(what, "; "), err)}); v != nil {
 				return v
@@ -267,4 +308,15 @@ func clampMetaLens(b []byte, max uint32) {
 			pos += 9
 		}
 	}
+}
+
+// canonOp strips run-specific directory suffixes from a path for the event log.
+func canonOp(p string) string {
+	if i := strings.Index(p, "_"); i > 0 {
+		if j := strings.IndexByte(p[i:], '/'); j > 0 {
+			return p[:i] + p[i+j:]
+		}
+		return p[:i]
+	}
+	return p
 }
